@@ -38,6 +38,7 @@ def check(run):
         if cfg != "C":
             run.guard("C10.2.decode-before-mutate", cfg, lambda: rule_atomic(run, F, cfg))
             run.guard("C10.4.no-input-sized-allocation", cfg, lambda: rule_alloc(run, F, cfg))
+            run.guard("C10.1.load-cone-totality", cfg + "/v0-entry", lambda: rule_v0_entry(run, F, cfg))
 
 
 def rule_atomic(run, F, cfg):
@@ -85,6 +86,29 @@ def rule_atomic(run, F, cfg):
     run.ob("C10.2.decode-before-mutate", "no-error-after-mutation", not bad,
            f"no Err return is reachable after the first mutation of *self ({bad[:2]})", config=cfg)
     # the cone between the first mutation and return has no undischarged panic site: covered by the audit
+
+
+def rule_v0_entry(run, F, cfg):
+    """The v0 decoder asserts `serialized[MAGIC.len()] == 0` and slices `serialized[MAGIC.len() + 1..]`: its A7 rows are
+    discharged by what its only caller has established. That caller-side part of the argument is checked here: the
+    call is reached only with the magic prefix present, the version byte PRESENT (`get(..) == Some`) and equal to 0."""
+    f = F.fn("data_format::DeserializeFormat::deserialize")
+    run.touched(f)
+    calls = f.calls(r"^data_format::v0::DeserializeFormat::deserialize$")
+    ok = len(calls) == 1
+    why = ""
+    if ok:
+        c = dominating_conditions(f, calls[0][0])
+        magic = any(re.match(r"^core::slice::starts_with\(arg:serialized, data_format::ADBLOCK_RUST_DAT_MAGIC\)$", k) and v == 1 for k, v in c.items())
+        present = any(re.match(r"^discr\(core::slice::get\(arg:serialized, core::slice::len\(data_format::ADBLOCK_RUST_DAT_MAGIC\)\)\)$", k) and v == 1 for k, v in c.items())
+        zero = any(re.match(r"^core::slice::get\(arg:serialized, core::slice::len\(data_format::ADBLOCK_RUST_DAT_MAGIC\)\)@Some\.0$", k) and v == 0 for k, v in c.items())
+        arg_ok = f.expr_operand(calls[0][1]["args"][0]) == "arg:serialized"
+        ok = magic and present and zero and arg_ok
+        why = str({k[:90]: v for k, v in c.items()})
+    run.ob("C10.1.load-cone-totality", "v0-entry:version-byte-present-and-zero", ok,
+           "v0::DeserializeFormat::deserialize(serialized) is called only after starts_with(MAGIC), with the byte after the "
+           f"magic present (slice::get == Some) and equal to 0 — the caller-side half of its A7 discharge ({why})",
+           site=f.loc(calls[0][0]) if calls else f.loc(0), config=cfg)
 
 
 def rule_alloc(run, F, cfg):
